@@ -75,6 +75,8 @@ type mismatch struct {
 	Detail string `json:"detail"`
 }
 
+var lean bool
+
 var (
 	outMu    sync.Mutex
 	enc      *json.Encoder
@@ -324,7 +326,7 @@ func digitsToBig(d []int, neg bool) *big.Int {
 }
 
 // value class of the most specific rule a string case touches (classification of value mismatches)
-var rulePriority = []string{"rawbyte", "utf8char", "U8", "u4", "hex2", "hex1", "oct3", "oct2", "oct1", "simple", "concat", "raw"}
+var rulePriority = []string{"utf8char", "U8", "u4", "hex2", "hex1", "oct3", "oct2", "oct1", "simple", "concat", "raw"}
 
 func valueRule(rules []string) string {
 	set := map[string]bool{}
@@ -499,7 +501,19 @@ func checkNumber(c *tcase) {
 		case "acc":
 			acc = append(acc, placement{"default", typ}, placement{"option", typ})
 		case "rej":
-			for _, p := range []placement{{"default", typ}, {"option", typ}} {
+			ps := []placement{{"default", typ}, {"option", typ}}
+			if lean && c.R.St == "reject" {
+				// lexical reject: the tokenizer does not know the field type
+				switch typ {
+				case "int64":
+					ps = ps[:1]
+				case "double":
+					ps = ps[1:]
+				default:
+					ps = nil
+				}
+			}
+			for _, p := range ps {
 				src := render(lit, []placement{p})
 				out := compile(src)
 				compared.Add(1)
@@ -624,6 +638,7 @@ func valueRule2(rules []string) string {
 
 func main() {
 	workers := flag.Int("j", runtime.NumCPU(), "parallel compiles")
+	flag.BoolVar(&lean, "lean", false, "quick tier: a literal the tokenizer must reject is placed once as a default and once as an option value instead of in every type")
 	flag.Parse()
 	in := bufio.NewScanner(os.Stdin)
 	in.Buffer(make([]byte, 1<<20), 1<<26)
